@@ -104,15 +104,151 @@ pub fn c02() -> SchedCampaign {
     }
 }
 
+pub fn c03() -> SchedCampaign {
+    let inv = |name: &'static str, pct: u64, off: u64| GenParams {
+        family: name,
+        specs: ALL_SPECS,
+        txs: (3, 16),
+        n_eoa: 4,
+        n_con: 2,
+        mix: Mix { sload: 8, sstore: 8, call: 4, slots: 3, vmax: 1000, ..Mix::default() },
+        kind_w: [8, 6, 1, 3],
+        invalid_pct: pct,
+        auth_pct: 10,
+        nonce_check_off_pct: off,
+        hot_sender_pct: 55,
+        poor_senders: 2,
+        low_gas_pct: 5,
+        ..GenParams::default()
+    };
+    SchedCampaign {
+        prop: "C03",
+        families: vec![
+            Family { weight: 4, params: inv("invalid-30", 30, 25) },
+            Family { weight: 2, params: inv("invalid-60", 60, 25) },
+            Family { weight: 2, params: inv("invalid-10-nonce-off", 10, 100) },
+            Family { weight: 2, params: inv("conditional-validity", 0, 0) },
+        ],
+        profiles: ProfileWeights {
+            focus_classes: &[Class::ExecStart, Class::Commit, Class::Dep, Class::Abort],
+            directors: obs::D_COMMIT_HEAD | obs::D_COORD | obs::D_EXEC_PUBLISH,
+            ..ProfileWeights::default()
+        },
+        seq_pct: 10,
+    }
+}
+
+pub fn c07() -> SchedCampaign {
+    let ben = |name: &'static str, roles: &'static [BenRole]| GenParams {
+        family: name,
+        specs: ALL_SPECS,
+        txs: (3, 16),
+        n_eoa: 4,
+        n_con: 2,
+        mix: Mix { coinbase: 8, balance: 6, call: 6, selfdestruct: 1, sload: 6, sstore: 6, slots: 3, vmax: 5, ..Mix::default() },
+        kind_w: [10, 3, 1, 5],
+        ben_roles: roles,
+        zero_tip_pct: 40,
+        basefees: &[0, 7, 7],
+        invalid_pct: 3,
+        auth_pct: 8,
+        ..GenParams::default()
+    };
+    SchedCampaign {
+        prop: "C07",
+        families: vec![
+            Family { weight: 3, params: ben("ben-eoa-absent", &[BenRole::PlainEoa, BenRole::Absent, BenRole::Empty]) },
+            Family { weight: 3, params: ben("ben-sender", &[BenRole::Sender]) },
+            Family { weight: 3, params: ben("ben-contract", &[BenRole::Contract]) },
+            Family { weight: 2, params: ben("ben-near-overflow", &[BenRole::NearOverflow]) },
+        ],
+        profiles: ProfileWeights {
+            focus_classes: &[Class::Mv, Class::ExecPublish, Class::ValidateScan, Class::Commit, Class::EstimateRewind],
+            directors: obs::D_EXEC_PUBLISH | obs::D_VALIDATE_SCAN | obs::D_CLAIM_LOCK | obs::D_COMMIT_HEAD,
+            ..ProfileWeights::default()
+        },
+        seq_pct: 8,
+    }
+}
+
+pub fn c08() -> SchedCampaign {
+    let life = |name: &'static str, specs: &'static [revm_primitives::hardfork::SpecId]| GenParams {
+        family: name,
+        specs,
+        txs: (4, 16),
+        n_eoa: 4,
+        n_con: 3,
+        mix: Mix { selfdestruct: 5, create: 6, extcode: 4, balance: 4, sload: 10, sstore: 10, call: 8, slots: 3, vmax: 3, len: (4, 12), ..Mix::default() },
+        kind_w: [10, 2, 2, 8],
+        ben_roles: &[BenRole::PlainEoa, BenRole::Contract],
+        ..GenParams::default()
+    };
+    SchedCampaign {
+        prop: "C08",
+        families: vec![
+            Family { weight: 5, params: life("lifecycle-all-forks", ALL_SPECS) },
+            Family { weight: 3, params: life("lifecycle-modern", MODERN_SPECS) },
+        ],
+        profiles: ProfileWeights {
+            focus_classes: &[Class::Mv, Class::ExecPublish, Class::Cache, Class::Commit, Class::ValidateScan],
+            directors: obs::D_EXEC_PUBLISH | obs::D_CACHE | obs::D_COMMIT_HEAD | obs::D_VALIDATE_SCAN,
+            ..ProfileWeights::default()
+        },
+        seq_pct: 8,
+    }
+}
+
+pub fn c09() -> SchedCampaign {
+    SchedCampaign {
+        prop: "C09",
+        families: vec![
+            Family {
+                weight: 6,
+                params: GenParams {
+                    family: "eip7702",
+                    specs: PRAGUE_SPECS,
+                    txs: (4, 16),
+                    n_eoa: 4,
+                    n_con: 3,
+                    mix: Mix { extcode: 8, call: 8, delegatecall: 2, sload: 8, sstore: 8, slots: 3, ..Mix::default() },
+                    kind_w: [6, 1, 0, 10],
+                    auth_pct: 45,
+                    pre_delegated: 2,
+                    hot_sender_pct: 20,
+                    ..GenParams::default()
+                },
+            },
+            Family {
+                weight: 3,
+                params: GenParams {
+                    family: "deployments",
+                    specs: ALL_SPECS,
+                    txs: (4, 14),
+                    n_eoa: 4,
+                    n_con: 2,
+                    mix: Mix { create: 10, extcode: 8, call: 8, sload: 6, sstore: 6, slots: 3, ..Mix::default() },
+                    kind_w: [8, 1, 4, 8],
+                    ..GenParams::default()
+                },
+            },
+        ],
+        profiles: ProfileWeights {
+            focus_classes: &[Class::Mv, Class::ExecPublish, Class::ValidateScan],
+            directors: obs::D_EXEC_PUBLISH | obs::D_VALIDATE_SCAN | obs::D_CLAIM_LOCK | obs::D_COMMIT_HEAD,
+            ..ProfileWeights::default()
+        },
+        seq_pct: 8,
+    }
+}
+
 pub fn by_name(prop: &str) -> Option<SchedCampaign> {
     match prop {
         "C01" => Some(c01()),
         "C02" => Some(c02()),
+        "C03" => Some(c03()),
+        "C07" => Some(c07()),
+        "C08" => Some(c08()),
+        "C09" => Some(c09()),
         _ => None,
     }
-}
-
-#[allow(dead_code)]
-pub fn unused() -> (&'static [revm_primitives::hardfork::SpecId], &'static [revm_primitives::hardfork::SpecId]) {
-    (MODERN_SPECS, PRAGUE_SPECS)
 }
